@@ -82,7 +82,7 @@ impl Runner for PacketRunner {
     fn step(&mut self, line: &str, out: &mut Vec<String>, stats: &mut Stats) {
         let t: Vec<&str> = line.split(' ').collect();
         match t.as_slice() {
-            ["penc", _ks, pid, ver, dst, iv, nonce, kind, msg] => {
+            ["penc", ks_tok, pid, ver, dst, iv, nonce, kind, msg] => {
                 let r = (|| {
                     let proto = proto(&unhx(pid)?, &unhx(ver)?)?;
                     let dst = node_id_of(&unhx(dst)?)?;
@@ -124,6 +124,18 @@ impl Runner for PacketRunner {
                                 if in_window {
                                     out.push(format!("!MON C05 roundtrip-rejected {}", err_name(&e)));
                                 }
+                            }
+                        }
+                        // implementation-side monitor: the datagram is iv ‖ (header ⊕ keystream) ‖ message,
+                        // with the keystream computed independently (AES-128-CTR, key = destination id
+                        // prefix, counter block = iv) and the header as returned in the authenticated data
+                        if let (Some(ks), Some(ivb), Some(m)) = (unhx(ks_tok), unhx(iv), unhx(msg)) {
+                            let header = if ad.len() >= 16 { &ad[16..] } else { &ad[..0] };
+                            let mut want = ivb.clone();
+                            want.extend(header.iter().zip(ks.iter()).map(|(h, k)| h ^ k));
+                            want.extend_from_slice(&m);
+                            if ks.len() >= header.len() && want != data {
+                                out.push("!MON C05 datagram-differs-from-wire-layout".into());
                             }
                         }
                         stats.bump(if in_window { "penc.in-window" } else { "penc.out-of-window" });
